@@ -40,7 +40,7 @@ def rand_ctor(rng, n, kind=None):
     raise ValueError(kind)
 
 
-def writes(rng, writable, n, bad_prob=0.03):
+def writes(rng, writable, n, bad_prob=0.006):
     ws = []
     k = rng.randint(0, max(1, len(writable)))
     for _ in range(k):
